@@ -337,6 +337,26 @@ func (e *Env) binop(x *EBin) Val {
 		}
 		return boolVal(t)
 	case "<", "<=", ">", ">=":
+		{
+			// ordered comparison of two values of a type parameter (cmp.Ordered): the uninterpreted strict order lt_<sort>
+			// that the program's own <, cmp.Compare and slices.Sort are modelled by
+			l, r := e.eval(x.L), e.eval(x.R)
+			if l.T != nil && r.T != nil && isTypeParam(l.T) && isTypeParam(r.T) {
+				srt := c.sortOf(l.T)
+				fn := "lt_" + srt
+				c.DeclFun(fn, []string{srt, srt}, "Bool")
+				switch x.Op {
+				case "<":
+					return boolVal(app(fn, l.S, r.S))
+				case ">":
+					return boolVal(app(fn, r.S, l.S))
+				case "<=":
+					return boolVal(not(app(fn, r.S, l.S)))
+				default:
+					return boolVal(not(app(fn, l.S, r.S)))
+				}
+			}
+		}
 		return boolVal(app(x.Op, e.evalInt(x.L), e.evalInt(x.R)))
 	case "+", "-", "*":
 		l, r := e.eval(x.L), e.eval(x.R)
